@@ -72,9 +72,10 @@ RichLeaves ==
    Filt(Var("nope"), <<FlA("default", Str(3))>>),
    Filt(Var("xs"), <<Fl("first"), FlA("add", Var("x"))>>),
    Filt(Str(2), <<FlA("cut", Str(4)), Fl("title")>>),
-   Filt(Var("xs"), <<FlA("slice", Str(8))>>),
+   Filt(Var("xs"), <<FlA("slice", Str(9))>>),
    Filt(Var("xs"), <<FlA("join", Trans(1))>>),
-   Filt(Var("d2"), <<FlA("default", Var("d"))>>)}
+   Filt(Var("d2"), <<FlA("default", Var("d"))>>),
+   Var("only")}
 Leaves == IF Rich THEN RichLeaves ELSE SmallLeaves
 \* leaves allowed as a dictionary key (no filter argument: inside a dict literal the first
 \* `:` ends the key - documented restriction)
@@ -86,7 +87,6 @@ KeyLeaves == IF Rich THEN RichKeys ELSE SmallKeys
 \* the value): the i-th argument, if a keyword, is named KwName[i]; if an aggregate, AggName[i].
 KwName  == <<"a", "@c-d.e#f", "b_1", "data-x", "z9">>
 AggName == <<<<"attrs", "class">>, <<"attrs", "@click.x">>, <<"g", "h:i">>, <<"attrs", "data-y">>, <<"g", "j">>>>
-FlagNames == {"only"}
 BadLeaves == {BadFilt(Var("x"), "...", "upper"), BadFilt(Var("xs"), "*", "first"), BadFilt(Str(1), "**", "upper")}
 
 (* ------------------------------ helpers ------------------------------- *)
@@ -101,7 +101,7 @@ Depth(v) ==
 IsValue(v) == v.t \notin {"spread", "pair"}
 BaseOf(v) == IF v.t = "filt" THEN v.b ELSE v
 ListyLeaf(v) == BaseOf(v).t = "var" /\ BaseOf(v).n \in {"xs", "ys", "e0"} /\
-                (v.t = "filt" => v = Filt(Var("xs"), <<FlA("slice", Str(8))>>))
+                (v.t = "filt" => v = Filt(Var("xs"), <<FlA("slice", Str(9))>>))
 DictyLeaf(v) == \/ v.t = "var" /\ v.n \in {"d", "d2"}
                 \/ v = Filt(Var("d2"), <<FlA("default", Var("d"))>>)
 ListOp(v) == v.t = "list" \/ ListyLeaf(v)
@@ -143,7 +143,8 @@ KwSeen == \E i \in 1..Len(args) : args[i].t \in {"kw", "agg", "kwspread"} \/ (ar
 (* ------------------------------ actions ------------------------------- *)
 Init == stk = <<>> /\ args = <<>> /\ nl = 0 /\ nc = 0 /\ bad = FALSE
 
-Room == Len(args) < MaxArgs /\ Len(stk) < MaxWidth * MaxDepth + 1
+\* room for one more stack item: the remaining literals must be able to reduce the stack to one value
+Room == Len(args) < MaxArgs /\ Len(stk) + 1 <= 1 + (MaxCont - nc) * (MaxWidth - 1)
 PushLeaf(l) ==
   /\ Room /\ nl < MaxLeaves
   /\ stk' = Append(stk, l) /\ nl' = nl + 1 /\ UNCHANGED <<args, nc, bad>>
@@ -250,12 +251,14 @@ Out(x) == Serialize(ToJson(x) \o "\n", IOEnv.OUT,
                      openOptions |-> <<"WRITE", "CREATE", "APPEND">>]).exitValue = 0
 Export ==
   IF stk = <<>> /\ args = <<>>
-  THEN Out([kind |-> "header", ctx |-> Ctx, styles |-> Styles, canon |-> Canon, from |-> StyleFrom, to |-> StyleTo])
+  THEN Out([kind |-> "header", ctx |-> Ctx, styles |-> Styles, canon |-> Canon, from |-> StyleFrom, to |-> StyleTo,
+            strtab |-> StrTab, tpltab |-> TplTab])
   ELSE Complete /\ (AllowInvalid => bad) =>
        Out([kind |-> "case", args |-> args, invalid |-> bad,
             texts |-> [j \in 1..(StyleTo - StyleFrom + 1) |-> Text(args, Styles[StyleFrom + j - 1])],
             serial |-> Serial(args, Canon),
-            expect |-> IF bad THEN [args |-> <<>>, kwargs |-> <<>>, flags |-> {}] ELSE Denote(args)])
+            expect |-> IF bad THEN NoValues ELSE Denote(args),
+            devs |-> IF bad THEN <<>> ELSE Devs(args)])
 \* cheap variant used to size a configuration: one short line per case
 ExportCount == Complete /\ (AllowInvalid => bad) => Out([n |-> Len(args), l |-> nl, c |-> nc])
 =============================================================================
